@@ -31,6 +31,10 @@ def mk(spec):
         return np.void(base64.b64decode(spec[1]))
     if k == "a":
         return np.array(spec[1], dtype=np.int64)
+    if k == "z":
+        import random
+
+        return np.frombuffer(random.Random(int(spec[2])).randbytes(int(spec[1])), dtype=np.uint8)
     if k == "e":
         return h5py.Empty("f")
     raise ValueError(f"bad value spec {spec!r}")
@@ -64,6 +68,8 @@ def norm(v):
     if isinstance(v, (float, np.floating)):
         return ["f", repr(float(v))]
     if isinstance(v, np.ndarray):
+        if v.size > 4096:
+            return ["A", v.dtype.kind, list(v.shape), hashlib.sha256(np.ascontiguousarray(v).tobytes()).hexdigest()]
         if v.dtype.kind in "iu":
             return ["a", "i", list(v.shape), v.astype(np.int64).ravel().tolist()]
         if v.dtype.kind == "f":
